@@ -109,6 +109,24 @@ func (m *monitor) step(i int, o op, chunk pb.Chunk, res string, before, after fs
 	if len(after.stray) > 0 {
 		m.violation("CONFINE", i, "unexpected path "+hexs(after.stray[0]))
 	}
+	removedNow := map[string]bool{}
+	for _, r := range after.removed {
+		removedNow[r] = true
+	}
+	for k, t := range trAfter {
+		f := strings.Split(k, ".")
+		if len(f) == 3 && !removedNow[f[0]+"."+f[1]] {
+			found := false
+			for _, d := range after.temps {
+				if d.key == fmt.Sprintf("%s.%d", k, t.From) {
+					found = true
+				}
+			}
+			if !found {
+				m.violation("TRACKED-WITHOUT-TEMP", i, "stream "+k+" is tracked but has no temp dir (the replica is not removed): its next chunk cannot be saved")
+			}
+		}
+	}
 	bt, at := dirMap(before.temps), dirMap(after.temps)
 	bf, af := dirMap(before.finals), dirMap(after.finals)
 	// final directories are immutable
@@ -242,6 +260,15 @@ func (m *monitor) step(i int, o op, chunk pb.Chunk, res string, before, after fs
 			}
 		} else if expected {
 			m.disturbed = true // validator refusal, removed replica, out of date
+		}
+		// the next expected chunk of a live stream is only ever refused by dropping the stream
+		// (validator refusal, failed final validation, snapshot out of date): the record
+		// must be gone with the temp dir, never kept
+		if expected && !removed {
+			if _, still := trAfter[key]; still {
+				m.violation("DROPPED-STREAM-STILL-TRACKED", i, fmt.Sprintf("chunk id=%d, the next expected chunk of its stream, was refused but the stream %s is still tracked (next=%d)",
+					chunk.ChunkId, key, trAfter[key].Next))
+			}
 		}
 		if tracked {
 			m.disturbed = true
